@@ -8,7 +8,7 @@ for f in sorted(glob.glob("/verif/seeded/*/meta.json")):
         lab = v[1].split("check=")[1].split(" inputs=")[0].strip("'\"")
         h = v[1].split("harness=")[1].split(" ")[0]
         lab = "%s / `%s`" % (h, lab)
-    rows.append("| %s | %s | %s | %s | %s | %s |" % (m["id"], m["property"], m["needs_to_manifest"].replace("|", "\\|")[:220], "yes" if m["detected"] else "**no**",
+    rows.append("| %s | %s | %s | %s | %s | %s |" % (m["id"], m["property"], m["needs_to_manifest"].replace("|", "\\|")[:220], "yes" if m["detected"] else ("thorough tier only" if m.get("detected_by_thorough_tier") else "**no**"),
                 lab.replace("|", "\\|")[:90], ("first attempt" if m.get("detected_at_first_attempt") else ("after: " + m.get("strengthening", "")[:200])) if m.get("detected_at_first_attempt") is not None else ""))
 print("| Seed | Property | Needs, to manifest | Detected by the quick check | Harness / check that fires | At first attempt? |")
 print("|------|----------|--------------------|-----------------------------|----------------------------|-------------------|")
